@@ -163,7 +163,9 @@ def combined_mvcapa_penalty(
     if p < 2:
         return dense_mvcapa_penalty(n, 1, n_params_per_variable, scale)
 
-    dense_alpha, dense_betas = dense_mvcapa_penalty(n, p * n_params_per_variable, scale)
+    dense_alpha, dense_betas = dense_mvcapa_penalty(
+        n, p, n_params_per_variable, scale
+    )
     dense_betas = np.zeros(p)
     sparse_alpha, sparse_betas = sparse_mvcapa_penalty(
         n, p, n_params_per_variable, scale
